@@ -129,20 +129,47 @@ def _push_typestate(ctx, R, roles, T):
     # DONE
     R.check(not g.in_cycle(en) and en not in inside and dn not in g.reach([en], exc=False) and g.dominates([head], en), "PUSH-events", q + "|DONE-after-data", "DONE is sent once, after the chunk loop", "DONE is not sent exactly once after all DATA", f.loc(en.ast))
     zt = T.term(f, en, eb.get("size")) if eb.get("size") is not None else None
-    now = ("call", "builtins.int", (("call", "time.time", (), ()),), ())
+    here = mtime_default(ctx, T, f, en, zt)
+    # the default may also be resolved by the public method before the per-file transfer starts
+    outer = None
+    pub = roles.dev["push"]
+    for pn_, pc_ in callee_nodes(ctx, pub, f):
+        b_ = ctx.cg.site(pc_).bind(f)
+        if b_.get("mtime") is not None:
+            o = mtime_default(ctx, T, pub, pn_, T.term(pub, pn_, b_.get("mtime")))
+            outer = o if outer in (None, o) else "bad"
+    good = (here == "defaulted" and outer in ("param", "defaulted", None)) or (here == "param" and outer == "defaulted")
+    R.check(good and "data" not in eb, "PUSH-events", q + "|DONE-mtime", "DONE carries mtime, or int(time.time()) when mtime is 0, and no payload",
+            "DONE carries size=%s (%s in _push, %s in push); expected mtime or int(time.time()) when mtime == 0" % (show(zt) if zt else "nothing", here, outer), f.loc(en.ast))
+    R.check(good, "PUSH-events", q + "|DONE-now-iff-zero", "the current time is substituted exactly when mtime == 0", "the substitution of the current time is not governed by `mtime == 0`", f.loc(en.ast))
+    # same transaction objects on all three sends
+    for n, c, b, cid in sends:
+        R.check(varkey(unawait(b.get("adb_info"))) in f.params and varkey(unawait(b.get("filesync_info"))) in f.params, "PUSH-events", "%s|same-stream|%s" % (q, cid.decode() if cid else "?"), "sent on the stream _push was given", None, f.loc(n.ast), trivial=True)
+    callback_contained(ctx, R, roles, T, f, pt, "CB-push")
+
+
+def mtime_default(ctx, T, f, node, zt):
+    """How the term `zt` (evaluated at `node` of f) relates to f's parameter mtime: "param" (passed through), "defaulted" (mtime, or
+    int(time.time()) exactly when mtime == 0) or "bad"."""
     from ..terms import alts_of
-    alts = alts_of(zt) if zt else set()
-    if zt and zt[0] == "ite":
+    g = ctx.cfg(f)
+    df = ctx.df(f)
+    if zt is None:
+        return "bad"
+    if zt == ("p", "mtime"):
+        return "param"
+    now = ("call", "builtins.int", (("call", "time.time", (), ()),), ())
+    alts = alts_of(zt)
+    if zt[0] == "ite":
         # the conditional itself must be `mtime == 0 -> now`
         c = zt[1][1] if zt[1][0] == "cond" else None
         if c == ("cmp", ("p", "mtime"), ("c", "Eq"), ("c", 0)):
-            alts = alts if (zt[2], zt[3]) == (now, ("p", "mtime")) else {("wrong-arm",)}
-        elif c == ("cmp", ("p", "mtime"), ("c", "NotEq"), ("c", 0)):
-            alts = alts if (zt[3], zt[2]) == (now, ("p", "mtime")) else {("wrong-arm",)}
-        else:
-            alts = {("wrong-condition",)}
-    R.check(alts == {("p", "mtime"), now} and "data" not in eb, "PUSH-events", q + "|DONE-mtime", "DONE carries mtime, or int(time.time()) when mtime is 0, and no payload",
-            "DONE carries size=%s; expected mtime or int(time.time()) when mtime == 0" % (show(zt) if zt else "nothing"), f.loc(en.ast))
+            return "defaulted" if (zt[2], zt[3]) == (now, ("p", "mtime")) else "bad"
+        if c == ("cmp", ("p", "mtime"), ("c", "NotEq"), ("c", 0)):
+            return "defaulted" if (zt[3], zt[2]) == (now, ("p", "mtime")) else "bad"
+        return "bad"
+    if alts != {("p", "mtime"), now}:
+        return "bad"
     # the substitution happens exactly when mtime == 0
     mk = key(ast.Name(id="mtime", ctx=ast.Load()))
     zk = key(ast.Constant(value=0))
@@ -150,17 +177,14 @@ def _push_typestate(ctx, R, roles, T):
     ok = len(asg) == 1 and any(fa[0] == ("eq",) + tuple(sorted([mk, zk])) and fa[1] is True for fa in df.facts(asg[0]))
     if ok:
         tests = [n for n in g.live_nodes() if n.kind == "test" and g.dominates([n], asg[0]) and any(fa[0] == ("eq",) + tuple(sorted([mk, zk])) for fa in (df.edge_facts(n, "true") | df.edge_facts(n, "false")))]
+        # the question `mtime == 0` is asked on every path to the use ...
+        ok = bool(tests) and any(g.dominates([tn], node) for tn in tests)
         for tn in tests:
+            # ... and whenever the answer is yes the substitution happens before the use
             lab = "true" if any(fa[0][0] == "eq" and fa[1] is True for fa in df.edge_facts(tn, "true")) else "false"
             starts = [d for d, l in g.succ[tn] if l == lab]
-            ok = ok and en not in g.reach(starts, avoid=asg, exc=False, include_start=True)
-    if zt and zt[0] == "ite" and alts == {("p", "mtime"), now}:
-        ok = True          # the conditional term above already says: int(time.time()) exactly when mtime == 0
-    R.check(ok, "PUSH-events", q + "|DONE-now-iff-zero", "the current time is substituted exactly when mtime == 0", "the substitution of the current time is not governed by `mtime == 0`", f.loc(en.ast))
-    # same transaction objects on all three sends
-    for n, c, b, cid in sends:
-        R.check(varkey(unawait(b.get("adb_info"))) in f.params and varkey(unawait(b.get("filesync_info"))) in f.params, "PUSH-events", "%s|same-stream|%s" % (q, cid.decode() if cid else "?"), "sent on the stream _push was given", None, f.loc(n.ast), trivial=True)
-    callback_contained(ctx, R, roles, T, f, pt, "CB-push")
+            ok = ok and node not in g.reach(starts, avoid=asg, exc=False, include_start=True)
+    return "defaulted" if ok else "bad"
 
 
 def _subst_self(t, old, new):
@@ -445,7 +469,8 @@ def _push_public(ctx, R, roles, T):
     R.check(oks, "PUSH", q + "|source", "each file is read from its own local path, opened 'rb'", "_push reads from %s, not from the pair's local path opened in 'rb' mode" % (show(stt) if stt else "?"), f.loc(pn.ast))
     for p in ("st_mode", "mtime", "progress_callback"):
         t = T.term(f, pn, b.get(p)) if b.get(p) is not None else None
-        R.check(t == ("p", p), "PUSH", q + "|" + p, "%s forwarded" % p, "_push receives %s=%s" % (p, show(t) if t else "?"), f.loc(pn.ast))
+        okp = t == ("p", p) or (p == "mtime" and mtime_default(ctx, T, f, pn, t) == "defaulted")      # (the pairing with _push is checked by PUSH-events)
+        R.check(okp, "PUSH", q + "|" + p, "%s forwarded" % p, "_push receives %s=%s" % (p, show(t) if t else "?"), f.loc(pn.ast))
     fi = T.term(f, pn, b.get("filesync_info")) if b.get("filesync_info") is not None else None
     okf = fi is not None and fi[0] == "new" and dict(fi[2]).get("recv_message_format") == ("c", ctx.fold.need("constants", "FILESYNC_PUSH_FORMAT", "PUSH"))
     R.check(okf, "PUSH", q + "|format", "status records decoded with the push format", "push decodes replies with %s" % (show(fi) if fi else "?"), f.loc(pn.ast))
@@ -500,16 +525,26 @@ def _files_to_push(ctx, R, T):
             R.fail("DIR", sub, "get_files_to_push returns %s, not (is_dir, local_paths, device_paths)" % show(t), f.loc(rn.ast))
             continue
         flag, lp, dp = t[1:]
-        R.check(_is_isdir(flag), "DIR", sub + "|flag", "flag = not BytesIO and os.path.isdir(local_path)", "the directory flag is %s" % show(flag), f.loc(rn.ast))
-        facts = df.facts(rn)
-        dirk = None
-        isdir = None
-        for fa in facts:
-            if fa[0][0] == "truthy":
-                from .c06 import eval_dump
-                e = eval_dump(fa[0][1])
-                if _is_isdir(T.term(f, rn, e)):
-                    isdir = fa[1]
+        # what the tests passed on the way to this return say about "local_path is a directory (and not a BytesIO)"
+        from ..util import path_conditions, decide_under
+        isdir_ast = ast.parse("not isinstance(%s, BytesIO) and os.path.isdir(%s)" % (f.params[0], f.params[0]), mode="eval").body
+        conds = []
+        for (te, val) in path_conditions(ctx, f, rn):
+            from ..util import subst_copies
+            conds.append((subst_copies(ctx, f, rn, te), val))
+        isdir = decide_under(conds, isdir_ast)
+        if flag[0] == "c" and isinstance(flag[1], bool):
+            R.check(isdir is flag[1], "DIR", sub + "|flag", "flag = not BytesIO and os.path.isdir(local_path) (as decided by the tests leading here)",
+                    "the directory flag is the constant %s where `not isinstance(local_path, BytesIO) and os.path.isdir(local_path)` is %s" % (flag[1], "undecided" if isdir is None else isdir), f.loc(rn.ast))
+        else:
+            R.check(_is_isdir(flag), "DIR", sub + "|flag", "flag = not BytesIO and os.path.isdir(local_path)", "the directory flag is %s" % show(flag), f.loc(rn.ast))
+            if isdir is None:
+                for fa in df.facts(rn):
+                    if fa[0][0] == "truthy":
+                        from .c06 import eval_dump
+                        e = eval_dump(fa[0][1])
+                        if _is_isdir(T.term(f, rn, e)):
+                            isdir = fa[1]
         lalts = set(lp[1]) if lp[0] == "phi" else {lp}
         dalts = set(dp[1]) if dp[0] == "phi" else {dp}
         single_l, single_d = ("list", ("p", "local_path")), ("list", ("p", "device_path"))
